@@ -564,17 +564,25 @@ def write_if_changed(path: pathlib.Path, content: str) -> bool:
     return True
 
 
+def render_all() -> dict:
+    """every generated Lean file: {path relative to lean/: content}. `Gen/Tables.lean` = literal tables read off the
+    source (this module); `Gen/Src.lean` = the Python ast of the listed functions as Lean data (py2lean.py)."""
+    from . import py2lean
+    return {"VivModel/Gen/Tables.lean": render_tables(), "VivModel/Gen/Src.lean": py2lean.render_src()}
+
+
 def translate() -> dict:
     """Regenerate Gen/*.lean. Returns {'changed': [...], 'error': str|None}."""
     out = {"changed": [], "error": None}
     try:
-        content = render_tables()
+        files = render_all()
     except TranslationError as e:
         out["error"] = str(e)
         return out
-    target = paths.LEAN / "VivModel" / "Gen" / "Tables.lean"
-    if write_if_changed(target, content):
-        out["changed"].append(str(target.relative_to(paths.VERIF)))
+    for rel, content in files.items():
+        target = paths.LEAN / rel
+        if write_if_changed(target, content):
+            out["changed"].append("lean/" + rel)
     return out
 
 
